@@ -37,25 +37,26 @@ type Finding struct {
 }
 
 type Output struct {
-	Layout           string         `json:"layout"`
-	Findings         []*Finding     `json:"findings"`
-	Broken           []string       `json:"broken"`
-	GridSchemas      int            `json:"grid_schemas"`
-	GridPlanned      int            `json:"grid_planned"`
-	GridEvaluations  int            `json:"grid_evaluations"`
-	GridNontrivial   int            `json:"grid_nontrivial"`
-	ShapeSkeletons   int            `json:"shape_skeletons"`
-	ShapesGenerated  int            `json:"shapes_generated"`
-	ShapesValid      int            `json:"shapes_valid"`
-	ShapesReaching   int            `json:"shapes_reaching"`
-	ShapesSentinelOn int            `json:"shapes_sentinel_when_enabled"`
-	ShapesKeyAbsent  int            `json:"shapes_expected_key_absent"`
-	ShapeEvaluations int            `json:"shape_evaluations"`
-	Exhaustive       bool           `json:"exhaustive"`
-	Stopped          string         `json:"stopped,omitempty"`
-	Samples          []any          `json:"samples"`
-	Bounds           map[string]any `json:"bounds"`
-	WallS            float64        `json:"wall_s"`
+	Layout            string         `json:"layout"`
+	Findings          []*Finding     `json:"findings"`
+	Broken            []string       `json:"broken"`
+	GridSchemas       int            `json:"grid_schemas"`
+	GridPlanned       int            `json:"grid_planned"`
+	GridEvaluations   int            `json:"grid_evaluations"`
+	GridNontrivial    int            `json:"grid_nontrivial"`
+	ShapeSkeletons    int            `json:"shape_skeletons"`
+	ShapesGenerated   int            `json:"shapes_generated"`
+	ShapesValid       int            `json:"shapes_valid"`
+	ShapesReaching    int            `json:"shapes_reaching"`
+	ShapesSentinelOn  int            `json:"shapes_sentinel_when_enabled"`
+	ShapesKeyAbsent   int            `json:"shapes_expected_key_absent"`
+	ShapesUnknownName int            `json:"shape_type_fields_with_unknown_name"`
+	ShapeEvaluations  int            `json:"shape_evaluations"`
+	Exhaustive        bool           `json:"exhaustive"`
+	Stopped           string         `json:"stopped,omitempty"`
+	Samples           []any          `json:"samples"`
+	Bounds            map[string]any `json:"bounds"`
+	WallS             float64        `json:"wall_s"`
 }
 
 type collector struct {
@@ -99,6 +100,7 @@ func main() {
 	gridK := flag.Int("grid-k", 0, "override: max non-default slots per schema")
 	shapeN := flag.Int("shape-n", 4, "max selection nodes per disabled-mode query")
 	workers := flag.Int("workers", runtime.NumCPU(), "worker goroutines")
+	namesFullUpto := flag.Int("names-full-upto", 3, "shapes with at most this many nodes take __type names from the full alphabet")
 	wrapDepth := flag.Int("wrap-depth", 4, "max depth of list/non-null wrappers in the grid")
 	dump := flag.String("dump", "", "print the SDL of an assignment given as slot=value,slot=value and exit")
 	flag.Parse()
@@ -147,7 +149,7 @@ func main() {
 	o.Bounds["wrapper_depth"] = *wrapDepth
 	runGrid(grid, k, *workers, *layout, col, o)
 	deadline = finalDeadline
-	runShapes(*shapeN, *workers, *layout, col, o)
+	runShapes(*shapeN, *namesFullUpto, *workers, *layout, col, o)
 	for _, f := range col.findings {
 		o.Findings = append(o.Findings, f)
 	}
@@ -553,9 +555,23 @@ func runGrid(g *Grid, k, workers int, layout string, col *collector, o *Output) 
 // ---------------------------------------------------------------------------------------
 // disabled-mode shapes
 
+type printWitness struct {
+	idx               int
+	meta, print, name string
+	sh                Shape
+}
+
 type shapeOutcome struct {
 	valid, reaching, sentinelOn, keyAbsent bool
+	unknownNames                           int // __type keys asking for a name that is not in the schema
 	findings                               []caseFinding
+	prints                                 []metaPrint
+}
+
+// metaPrint is what a client can observe about one meta field of a disabled-mode response,
+// apart from its response key: the value and the (message, extensions) of the errors at its path.
+type metaPrint struct {
+	meta, print, name string
 }
 
 func checkShape(sh Shape, markerSchema *ast.Schema, srvOn, srvOff *handler.Server) (out shapeOutcome, broken string) {
@@ -576,7 +592,16 @@ func checkShape(sh Shape, markerSchema *ast.Schema, srvOn, srvOff *handler.Serve
 	var dataOn map[string]json.RawMessage
 	json.Unmarshal(respOn.Data, &dataOn)
 	for key := range sh.MetaKeys {
-		if v, ok := dataOn[key]; ok && string(v) != "null" {
+		v, ok := dataOn[key]
+		if tn, isType := sh.MetaNames[key]; isType && !tn.Exists {
+			// enabled + a name that is not in the schema: a plain null, no error (spec)
+			out.unknownNames++
+			if ok && (string(v) != "null" || hasErrorAt(respOn, key)) {
+				out.findings = append(out.findings, caseFinding{"enabled:unknown-type-name-not-plain-null", fmt.Sprintf("__type(name: %q) with introspection enabled: %.300s", tn.Name, respOn.Raw), "enabled"})
+			}
+			continue
+		}
+		if ok && string(v) != "null" {
 			out.reaching = true
 		}
 	}
@@ -613,6 +638,7 @@ func checkShape(sh Shape, markerSchema *ast.Schema, srvOn, srvOff *handler.Serve
 			if !hasErrorAt(resp, key) {
 				out.findings = append(out.findings, caseFinding{"disabled:no-error:" + meta, fmt.Sprintf("no error with path [%s]: %.300s", key, resp.Raw), "disabled"})
 			}
+			out.prints = append(out.prints, metaPrint{meta, observable(resp, key, v), sh.MetaNames[key].Name})
 			continue
 		}
 		if _, ok := sh.Fillers[key]; ok {
@@ -628,7 +654,22 @@ func checkShape(sh Shape, markerSchema *ast.Schema, srvOn, srvOff *handler.Serve
 	return out, ""
 }
 
-func runShapes(maxNodes, workers int, layout string, col *collector, o *Output) {
+// observable renders what the response shows for one meta field besides its key.
+func observable(resp *gqlResponse, key string, value json.RawMessage) string {
+	var errs []string
+	for _, e := range resp.Errors {
+		if len(e.Path) >= 1 {
+			if s, ok := e.Path[0].(string); ok && s == key {
+				ext, _ := json.Marshal(e.Extensions)
+				errs = append(errs, fmt.Sprintf("{message:%q path-len:%d extensions:%s}", e.Message, len(e.Path), ext))
+			}
+		}
+	}
+	sort.Strings(errs)
+	return fmt.Sprintf("value=%s errors=[%s]", value, strings.Join(errs, " "))
+}
+
+func runShapes(maxNodes, namesFullUpto, workers int, layout string, col *collector, o *Output) {
 	markerServed, err := loadSchema(markerSDL)
 	if err != nil {
 		col.brokenf("marker schema does not load: %v", err)
@@ -641,6 +682,15 @@ func runShapes(maxNodes, workers int, layout string, col *collector, o *Output) 
 	o.Bounds["shape_directives"] = dirAlphabet
 	o.Bounds["shape_meta_aliases"] = metaAliases
 	o.Bounds["shape_type_name_forms"] = typeArgForms
+	o.Bounds["shape_type_names_full"] = typeNamesFull
+	o.Bounds["shape_type_names_short"] = typeNamesShort
+	o.Bounds["shape_type_names_full_upto_nodes"] = namesFullUpto
+	for _, tn := range typeNamesFull { // the reference's idea of which names exist must be right
+		if _, ok := markerRef.Types[tn.Name]; ok != tn.Exists {
+			col.brokenf("name alphabet: %q exists=%v but the marker schema says %v", tn.Name, tn.Exists, ok)
+			return
+		}
+	}
 
 	skeletons := shapeSkeletons(maxNodes)
 	o.ShapeSkeletons = len(skeletons)
@@ -648,20 +698,21 @@ func runShapes(maxNodes, workers int, layout string, col *collector, o *Output) 
 	// Every worker walks the whole decoration space (cheap) and renders + executes the shapes
 	// whose index falls into its residue class; the counters are per worker and merged below.
 	type tally struct {
-		total, valid, sentinelOn, keyAbsent, done int
-		stopped                                  bool
-		reaching                                 map[[16]byte]bool
-		samples                                  map[int]Shape
+		total, valid, sentinelOn, keyAbsent, done, unknownNames int
+		stopped                                                 bool
+		reaching                                                map[[16]byte]bool
+		samples                                                 map[int]Shape
+		prints                                                  map[string]printWitness // meta + observable -> first shape showing it
 	}
 	tallies := make([]*tally, workers)
 	var wg sync.WaitGroup
 	for w := 0; w < workers; w++ {
-		t := &tally{reaching: map[[16]byte]bool{}, samples: map[int]Shape{}}
+		t := &tally{reaching: map[[16]byte]bool{}, samples: map[int]Shape{}, prints: map[string]printWitness{}}
 		tallies[w] = t
 		wg.Add(1)
 		go func() {
 			defer wg.Done()
-			t.total = enumerateShapes(skeletons, dirAlphabet, func(idx int, render func() Shape) bool {
+			t.total = enumerateShapes(skeletons, dirAlphabet, namesFullUpto, func(idx int, render func() Shape) bool {
 				if idx%workers != w {
 					return true
 				}
@@ -693,6 +744,13 @@ func runShapes(maxNodes, workers int, layout string, col *collector, o *Output) 
 					if out.keyAbsent {
 						t.keyAbsent++
 					}
+					t.unknownNames += out.unknownNames
+					for _, p := range out.prints {
+						k := p.meta + " " + p.print
+						if w, ok := t.prints[k]; !ok || idx < w.idx {
+							t.prints[k] = printWitness{idx, p.meta, p.print, p.name, sh}
+						}
+					}
 				}
 				for _, f := range out.findings {
 					col.report(1<<30+idx, f.sig, f.what, map[string]any{"mode": "shape", "layout": layout, "query": sh.Query, "variables": sh.Variables})
@@ -705,6 +763,7 @@ func runShapes(maxNodes, workers int, layout string, col *collector, o *Output) 
 	distinct := map[[16]byte]bool{}
 	stopped := false
 	samples := map[int]Shape{}
+	prints := map[string]printWitness{}
 	for _, t := range tallies {
 		o.ShapesGenerated += t.done
 		o.ShapesValid += t.valid
@@ -718,15 +777,39 @@ func runShapes(maxNodes, workers int, layout string, col *collector, o *Output) 
 		for i, sh := range t.samples {
 			samples[i] = sh
 		}
+		o.ShapesUnknownName += t.unknownNames
+		for k, w := range t.prints {
+			if old, ok := prints[k]; !ok || w.idx < old.idx {
+				prints[k] = w
+			}
+		}
 	}
 	o.ShapesReaching = len(distinct)
+	// With introspection disabled nothing observable may depend on the name asked for (or on
+	// anything else): every __type field, and every __schema field, looks the same.
+	byMeta := map[string][]printWitness{}
+	for _, w := range prints {
+		byMeta[w.meta] = append(byMeta[w.meta], w)
+	}
+	for meta, ws := range byMeta {
+		if len(ws) < 2 {
+			continue
+		}
+		sort.Slice(ws, func(i, j int) bool { return ws[i].idx < ws[j].idx })
+		var desc []string
+		for _, w := range ws {
+			desc = append(desc, fmt.Sprintf("name %q -> %s", w.name, w.print))
+		}
+		col.report(1<<30+ws[1].idx, "disabled:response-distinguishes-cases:"+meta, "responses with introspection disabled differ: "+strings.Join(desc, " | "),
+			map[string]any{"mode": "shape", "layout": layout, "query": ws[1].sh.Query, "variables": ws[1].sh.Variables, "compare_with_query": ws[0].sh.Query, "compare_with_variables": ws[0].sh.Variables})
+	}
 	if stopped {
 		o.Exhaustive = false
 		o.Stopped += fmt.Sprintf(" shape enumeration stopped by the internal budget after %d shapes", o.ShapesGenerated)
 	}
 	for _, i := range []int{100, 5000, 200000} {
 		if sh, ok := samples[i]; ok {
-			o.Samples = append(o.Samples, map[string]any{"kind": "disabled-mode query shape", "layout": layout, "query": sh.Query, "variables": sh.Variables, "meta_keys": sh.MetaKeys})
+			o.Samples = append(o.Samples, map[string]any{"kind": "disabled-mode query shape", "layout": layout, "query": sh.Query, "variables": sh.Variables, "meta_keys": sh.MetaKeys, "type_names": sh.MetaNames})
 		}
 	}
 }
@@ -785,7 +868,7 @@ func doReplay(g *Grid, file, layout string) int {
 		// rebuild the expectation from the query itself
 		sh := Shape{Query: rf.Replay.Query, Variables: rf.Replay.Variables, MetaKeys: map[string]string{}, Fillers: map[string]string{}}
 		var found *Shape
-		enumerateShapes(shapeSkeletons(4), dirAlphabet, func(_ int, render func() Shape) bool {
+		enumerateShapes(shapeSkeletons(4), dirAlphabet, 4, func(_ int, render func() Shape) bool {
 			if s := render(); s.Query == sh.Query {
 				found = &s
 				return false
